@@ -122,6 +122,16 @@ GATES = {
 }
 
 
+def fn_parent_text(fn, n):
+    p_ = n
+    for _ in range(3):
+        q = fn.parent(p_)
+        if q is None or q.get("k") in ("CompoundStmt", "IfStmt"):
+            break
+        p_ = q
+    return p_
+
+
 def check(P, R, tier):
     cg = CallGraph(P, exclude_objs=())
     # ---------------------------------------------------------------- RF7a: libc environment sources
@@ -257,6 +267,39 @@ def check(P, R, tier):
             else:
                 R.finding("RF7a-gate", mainf, "dt_set_base guard", "dt_set_base() not under `if (argi->base_arg)`", calls[0])
     R.floor("RF7a-gate", "tools with --base", ntools, 9)
+    # the setter stores (a conversion of) its argument and nothing else: the clock is consulted whenever the stored base is unknown
+    # (gate of dt_get_base above), so a setter that stores anything but what it was given silently re-opens that gate
+    for t in P.tus:
+        sb = t.functions.get("dt_set_base")
+        if sb is None or getattr(sb, "body", None) is None or t.obj in EXEMPT_UNITS or not t.obj.startswith("libdut_a-"):
+            continue
+        R.saw(sb)
+        par = sb.params[0]["d"]
+        stores = [x for x in sb.walk() if x.get("k") == "BinaryOperator" and x.get("op") == "=" and strip(x["c"][0]).get("k") == "DeclRefExpr"
+                  and strip(x["c"][0]).get("dk") not in ("parm",) and strip(x["c"][0]).get("n") == "base" and strip(x["c"][0]).get("d") != par]
+        if not stores:
+            raise AnalysisBroken("RF7a-setter: dt_set_base does not store into `base` any more")
+        gd = strip(stores[0]["c"][0]).get("d")
+        bad = []
+        for x in sb.walk():
+            if x.get("k") == "DeclRefExpr" and x.get("d") == gd and not any(strip(st["c"][0]) is x for st in stores):
+                bad.append(x)
+        for st in stores:
+            r = strip(st["c"][1])
+            if r is None or r.get("k") != "DeclRefExpr" or r.get("d") != par:
+                bad.append(st)
+        # what the parameter is reassigned from mentions only the parameter itself
+        for x in sb.walk():
+            if x.get("k") == "BinaryOperator" and x.get("op") == "=" and strip(x["c"][0]).get("d") == par:
+                for y in walk(x["c"][1]):
+                    if y.get("k") == "DeclRefExpr" and y.get("dk") in ("var", "parm") and y.get("d") != par:
+                        bad.append(y)
+        if bad:
+            R.finding("RF7a-setter", sb, "value stored by dt_set_base", "dt_set_base must store its argument (converted, if need be) and read "
+                      "nothing else; `%s` brings in something else -- if that is the still unknown static itself, the stored base stays "
+                      "unknown and dt_get_base() falls back to the clock although --base was given" % expr_text(fn_parent_text(sb, bad[0])), bad[0])
+        else:
+            R.ob("RF7a-setter", "dt_set_base stores a function of its argument only", True)
 
     # ---------------------------------------------------------------- RF7b: locale partition
     loc = P.tu("dt-locale.c")
